@@ -25,7 +25,7 @@ SHARDS = {'quick': 16, 'thorough': 16}
 NHIST = {'quick': 4000, 'thorough': 150000}
 MIN_NONTRIVIAL = {'quick': 1500, 'thorough': 60000}
 TIME_CAP = {'quick': 300, 'thorough': 3600}
-CONFIGS = ['default', 'string-atom', 'custom-operators', 'unit-parser', 'subset-custom-order', 'functions-without-par']
+CONFIGS = ['default', 'string-atom', 'custom-operators', 'unit-parser', 'subset-custom-order', 'functions-without-par', 'separate-add-sub-steps']
 FAIL_KINDS = ['unknown-atom', 'missing-operand', 'unbalanced-open', 'unbalanced-close', 'arity', 'nested-argument', 'atom-ctor']
 REQUIRED_CLASSES = (['cfg-' + c for c in CONFIGS] + ['fail-' + k for k in FAIL_KINDS] +
                     ['valid-after-failure', 'failure-after-failure', 'valid-after-valid', 'failure-after-valid',
@@ -145,6 +145,13 @@ def setup():
             [dict(operators=['par'], otype=Otype.ARGS), dict(operators=['add', 'sub'], otype=Otype.UNARY),
              dict(operators=['add', 'sub'], otype=Otype.BINARY), dict(operators=['mul', 'truediv'], otype=Otype.BINARY),
              dict(operators=['pow'], otype=Otype.BINARY)]),
+        # subtraction and addition in SEPARATE binary steps (legal: a + b - c + d = a + (b - c) + d): sign rewrites of the unary
+        # step create operator tokens the tokenizer never saw
+        'separate-add-sub-steps': conf(FaultAtom,
+            {'par': S.OperatorPar, 'mul': S.OperatorMul, 'truediv': S.OperatorTruediv, 'add': S.OperatorAdd, 'sub': S.OperatorSub},
+            [dict(operators=['par'], otype=Otype.ARGS), dict(operators=['add', 'sub'], otype=Otype.UNARY),
+             dict(operators=['mul', 'truediv'], otype=Otype.BINARY), dict(operators=['sub'], otype=Otype.BINARY),
+             dict(operators=['add'], otype=Otype.BINARY)]),
         # a subset with function operators but WITHOUT the plain parenthesis: "(1+2)" is no expression for this solver, before
         # and after it has solved function calls
         'functions-without-par': conf(FaultAtom,
@@ -163,6 +170,19 @@ def toks_default(rng):
     g = R.Gen(rng, maxdepth=rng.choice([1, 2, 2, 3]), size=rng.choice([.3, .6, 1.0]), maxops=15)
     ast = g.or_(g.maxdepth) if rng.random() < 0.4 else g.add(g.maxdepth)
     return ast
+
+
+def toks_signs(rng, d=2):
+    """token list: sums, differences and products of small numbers with stacked signs (5 - -3, 2 * -+4, - -1 + 2), no powers"""
+    def term(d):
+        out = list(rng.choice([[], [], ['-'], ['+'], ['-', '-'], ['-', '+'], ['+', '-'], ['-', '-', '-']]))
+        if d > 0 and rng.random() < 0.25:
+            return out + ['('] + toks_signs(rng, d - 1) + [')']
+        return out + [rng.choice(['1', '2', '3', '5', '0.5', '10'])]
+    out = term(d)
+    for _ in range(rng.choice([0, 1, 1, 2, 3])):
+        out += [rng.choice(['-', '+', '*', '-', '+', '/'])] + term(d)
+    return out
 
 
 def toks_subset(rng):
@@ -210,7 +230,7 @@ def toks_custom_ops(rng):
 
 
 def is_atom_token(cfg, t):
-    if cfg in ('default', 'subset-custom-order', 'custom-operators', 'functions-without-par'):
+    if cfg in ('default', 'subset-custom-order', 'custom-operators', 'functions-without-par', 'separate-add-sub-steps'):
         return t[0].isdigit() or t[0] == '.'
     if cfg == 'string-atom':
         return t not in ('+', '>', '(', ')')
@@ -218,7 +238,7 @@ def is_atom_token(cfg, t):
 
 
 def binop_tokens(cfg):
-    return {'string-atom': ['+', '>'], 'unit-parser': ['*', '/'], 'custom-operators': ['+'], 'functions-without-par': ['+', '*']}.get(cfg)
+    return {'string-atom': ['+', '>'], 'unit-parser': ['*', '/'], 'custom-operators': ['+'], 'functions-without-par': ['+', '*'], 'separate-add-sub-steps': ['+', '*']}.get(cfg)
 
 
 def gen_entry(rng, cfg, kind):
@@ -257,6 +277,8 @@ def gen_entry(rng, cfg, kind):
         toks = flat(rng, UNITS, ['*', '/'], 2)
     elif cfg == 'functions-without-par':
         toks = toks_funcs(rng)
+    elif cfg == 'separate-add-sub-steps':
+        toks = toks_signs(rng)
     else:
         toks = toks_custom_ops(rng)
     atoms = [i for i, t in enumerate(toks) if is_atom_token(cfg, t)]
@@ -291,6 +313,7 @@ KINDS_FOR = {
     'unit-parser': ['unknown-atom', 'missing-operand', 'unbalanced-open', 'unbalanced-close', 'nested-argument', 'atom-ctor'],
     'custom-operators': ['unknown-atom', 'missing-operand', 'atom-ctor'],
     'functions-without-par': ['unknown-atom', 'missing-operand', 'unbalanced-close', 'atom-ctor'],
+    'separate-add-sub-steps': ['unknown-atom', 'missing-operand', 'unbalanced-open', 'unbalanced-close', 'atom-ctor'],
 }
 
 
